@@ -47,7 +47,7 @@ func init() {
 			os.Exit(3)
 		}
 		var in In
-		if json.Unmarshal(raw, &in) != nil {
+		if mc.UnmarshalInput(raw, &in) != nil {
 			os.Exit(3)
 		}
 		check("one", in)
